@@ -83,7 +83,7 @@ class Model:
                 self.ends[l] = [x for x in self.ends[l] if x not in (a, b)]
                 for x in {a, b}:
                     self.links_of[x].remove(l)
-            return ("none",) if destroy else ("set", rem)
+            return ("none",) if (destroy or destroy is None) else ("set", rem)     # destroy omitted: the default, True
         if name == "uf":
             # Link.unlink_from(x): the link no longer lists x (any listing of it) and x no longer lists the link;
             # unlink_from(None) drops one unassigned end
